@@ -1,6 +1,10 @@
-(* Specification-level checkers: decide, with functions extracted from Coq (Checkers/*.v, whose soundness is proved
-   there), whether the result the IMPLEMENTATION returned satisfies the property's statement.
-   Only parsing is done here. *)
+(* Specification-level checkers: decide, with functions extracted from Coq (Checkers/Check.v; soundness lemmas in
+   Proofs/CheckSound.v), whether the result the IMPLEMENTATION returned satisfies the property's statement.
+   Only parsing and argument-validity bookkeeping are done here.
+     Some true  : the observed result satisfies the statement
+     Some false : it violates it - a concrete failing input
+     None       : no checker for this operation (the verdict then rests on the theorem that the model's result is the
+                  only one the statement allows) *)
 open Model
 open Values
 
@@ -10,9 +14,165 @@ let base_of op =
   else (match String.index_opt op '.' with Some i -> String.sub op 0 i | None -> op)
 
 let split_res s = String.split_on_char '|' s
+let n_lt a b = (match N.compare a b with Lt -> true | _ -> false)
+let n_of_nat_ k = n_of_int (int_of_nat k)
+let var_ok (l : lut) (i : n) = n_lt i (n_of_nat_ l.nv)
+let bit_ok (l : lut) (m : n) = n_lt m (num_bits l)
+let wf_ l = wfb l.nv l.tbl
+let small l = int_of_nat l.nv <= 16
+
+(* a call whose arguments are valid must return a well-formed table denoting f; an invalid one must panic *)
+let table_op ~(valid : bool) (n : nat) (expected : string) (f : n -> bool) : bool option =
+  if not valid then Some (expected = "panic")
+  else if expected = "panic" then Some false
+  else
+    let r = p_lut expected in
+    Some (int_of_nat r.nv = int_of_nat n && chk_table n r.tbl f)
 
 let check (op : string) (ty : string) (a : string array) (expected : string) : bool option =
-  ignore ty;
-  if expected = "panic" then None else
+  let dyn = (ty = "D") in
   match base_of op with
+  (* ---- C01 *)
+  | "not" -> let x = p_lut a.(0) in if not (wf_ x && small x) then None else table_op ~valid:true x.nv expected (spec_not x.tbl)
+  | "and" | "or" | "xor" as o ->
+     let x = p_lut a.(0) and y = p_lut a.(1) in
+     if not (wf_ x && wf_ y && small x) then None else
+     let f = (match o with "and" -> spec_and | "or" -> spec_or | _ -> spec_xor) x.tbl y.tbl in
+     table_op ~valid:(int_of_nat x.nv = int_of_nat y.nv) x.nv expected f
+  (* ---- C03 *)
+  | "flip" -> let x = p_lut a.(0) and i = p_n a.(1) in
+     if not (wf_ x && small x) then None else table_op ~valid:(var_ok x i) x.nv expected (spec_flip x.tbl i)
+  | "swap" -> let x = p_lut a.(0) and i = p_n a.(1) and j = p_n a.(2) in
+     if not (wf_ x && small x) then None else table_op ~valid:(var_ok x i && var_ok x j) x.nv expected (spec_swap x.tbl i j)
+  | "swap_adjacent" -> let x = p_lut a.(0) and i = p_n a.(1) in
+     if not (wf_ x && small x) then None else
+     let i1 = N.add i (n_of_int 1) in
+     table_op ~valid:(var_ok x i && var_ok x i1) x.nv expected (spec_swap x.tbl i i1)
+  | "cofactors" -> let x = p_lut a.(0) and i = p_n a.(1) in
+     if not (wf_ x && small x) then None else
+     if not (var_ok x i) then Some (expected = "panic") else if expected = "panic" then Some false else
+     (match split_res expected with
+      | [r0; r1] ->
+         let c0 = p_lut r0 and c1 = p_lut r1 in
+         Some (int_of_nat c0.nv = int_of_nat x.nv && int_of_nat c1.nv = int_of_nat x.nv &&
+               chk_table x.nv c0.tbl (spec_cof0 x.tbl i) && chk_table x.nv c1.tbl (spec_cof1 x.tbl i))
+      | _ -> Some false)
+  | "from_cofactors" -> let c0 = p_lut a.(0) and c1 = p_lut a.(1) and i = p_n a.(2) in
+     if not (wf_ c0 && wf_ c1 && small c0) then None else
+     table_op ~valid:(int_of_nat c0.nv = int_of_nat c1.nv && var_ok c0 i) c0.nv expected (spec_from_cof c0.tbl c1.tbl i)
+  (* ---- C11 *)
+  | "zero" -> table_op ~valid:true (p_nat a.(0)) expected spec_zero
+  | "one" -> table_op ~valid:true (p_nat a.(0)) expected spec_one
+  | "default" -> table_op ~valid:true (if dyn then nat_of_int 0 else p_nat a.(0)) expected spec_zero
+  | "nth_var" -> let n = p_nat a.(0) and v = p_n a.(1) in
+     table_op ~valid:(n_lt v (n_of_nat_ n)) n expected (spec_nth_var v)
+  | "parity" -> table_op ~valid:true (p_nat a.(0)) expected spec_parity
+  | "majority" -> let n = p_nat a.(0) in table_op ~valid:true n expected (spec_majority n)
+  | "threshold" -> table_op ~valid:true (p_nat a.(0)) expected (spec_threshold (p_n a.(1)))
+  | "equals" -> table_op ~valid:true (p_nat a.(0)) expected (spec_equals (p_n a.(1)))
+  | "symmetric" -> table_op ~valid:true (p_nat a.(0)) expected (spec_symmetric (p_n a.(1)))
+  | "get_bit" | "value" -> let x = p_lut a.(0) and m = p_n a.(1) in
+     if not (wf_ x) then None else
+     if not (bit_ok x m) then Some (expected = "panic") else Some (expected = s_bool (val0 x.tbl m))
+  | "set_bit" | "unset_bit" | "set_value" as o -> let x = p_lut a.(0) and m = p_n a.(1) in
+     if not (wf_ x && small x) then None else
+     let v = (match o with "set_bit" -> true | "unset_bit" -> false | _ -> p_bool a.(2)) in
+     table_op ~valid:(bit_ok x m) x.nv expected (spec_set x.tbl m v)
+  | "from_blocks" -> let n = p_nat a.(0) and b = p_nlist a.(1) in
+     if int_of_nat n > 16 then None else
+     if List.length b <> int_of_nat (table_size n) then Some (expected = "panic")
+     else if not (wfb n b) then None   (* outside the property's precondition *)
+     else table_op ~valid:true n expected (val0 b)
+  (* every table-valued result must at least be well formed (C02) *)
+  | "from_hex" -> if expected = "err" || expected = "panic" then None else
+     let r = p_lut (String.sub expected 3 (String.length expected - 3)) in Some (wf_ r && int_of_nat r.nv = int_of_nat (p_nat a.(0)))
+  | "random" -> if expected = "panic" then Some false else let r = p_lut expected in Some (wf_ r)
+  (* ---- C08 *)
+  | "cmp" -> let x = p_lut a.(0) and y = p_lut a.(1) in
+     if not (wf_ x && wf_ y) then None else
+     if (not dyn) && int_of_nat x.nv <> int_of_nat y.nv then None else
+     if expected = "panic" then Some false else
+     Some (chk_cmp x.nv x.tbl y.nv y.tbl (match expected with "lt" -> Lt | "eq" -> Eq | _ -> Gt))
+  | "eq" | "hash_eq" -> let x = p_lut a.(0) and y = p_lut a.(1) in
+     if not (wf_ x && wf_ y && small x) then None else
+     if expected = "panic" then Some false else Some (chk_eq x.nv x.tbl y.nv y.tbl (p_bool expected))
+  | "next_step" -> let x = p_lut a.(0) in
+     if not (wf_ x) then None else if expected = "panic" then Some false else
+     (match split_res expected with
+      | [r; okb] -> let y = p_lut r in Some (int_of_nat y.nv = int_of_nat x.nv && chk_next x.nv x.tbl y.tbl (p_bool okb))
+      | _ -> Some false)
+  (* ---- C04 / C05: the certificate must map the input to the representative; minimality by orbit enumeration for n <= 5 *)
+  | "p_canon" | "n_canon" | "npn_canon" as o -> let x = p_lut a.(0) in
+     if not (wf_ x) || int_of_nat x.nv > 10 then None else if expected = "panic" then Some false else
+     let parts = split_res expected in
+     let (c, perm, mask, group) =
+       (match o, parts with
+        | "p_canon", [c; p] -> (p_lut c, p_nlist p, n_of_int 0, 0)
+        | "n_canon", [c; m] -> (p_lut c, identity x.nv, p_n m, 1)
+        | "npn_canon", [c; p; m] -> (p_lut c, p_nlist p, p_n m, 2)
+        | _ -> failwith "bad canon result") in
+     let cert = int_of_nat c.nv = int_of_nat x.nv && chk_cert x.nv x.tbl c.tbl perm mask in
+     let minimal = if int_of_nat x.nv <= 5 then chk_minimal (nat_of_int group) x.nv x.tbl c.tbl else true in
+     Some (cert && minimal)
+  (* ---- C06 *)
+  | "top_decomposition" -> let x = p_lut a.(0) and v = p_n a.(1) in
+     if not (wf_ x && small x) then None else
+     if not (var_ok x v) then Some (expected = "panic") else if expected = "panic" then Some false else
+     Some (decomp_eqb (p_decomp expected) (spec_top x.nv x.tbl v))
+  | "is_pos_unate" | "is_neg_unate" as o -> let x = p_lut a.(0) and v = p_n a.(1) in
+     if not (wf_ x && small x) then None else
+     if not (var_ok x v) then Some (expected = "panic") else if expected = "panic" then Some false else
+     Some (p_bool expected = (if o = "is_pos_unate" then spec_pos_unate else spec_neg_unate) x.nv x.tbl v)
+  (* ---- C07 *)
+  | "bdd_complexity" -> let n = p_nat a.(0) and ls = p_lutlist a.(1) in
+     if not (List.for_all wf_ ls) || int_of_nat n > 12 then None else
+     let same = List.for_all (fun l -> int_of_nat l.nv = int_of_nat n) ls in
+     if not same then Some (expected = "panic") else if expected = "panic" then Some false else
+     Some (chk_bdd n (List.map (fun l -> l.tbl) ls) (nat_of_int (int_of_string expected)))
+  (* ---- C14 / C15 / C13: results checked by exhaustive evaluation over the assignments *)
+  | "s.and" | "s.or" as o -> let x = p_sop a.(0) and y = p_sop a.(1) in
+     if int_of_nat x.snv > 12 then None else
+     if int_of_nat x.snv <> int_of_nat y.snv then Some (expected = "panic") else if expected = "panic" then Some false else
+     let r = p_sop expected in
+     let f m = if o = "s.and" then sem_or x.scubes m && sem_or y.scubes m else sem_or x.scubes m || sem_or y.scubes m in
+     Some (int_of_nat r.snv = int_of_nat x.snv && chk_sop_result x.snv r.scubes f)
+  | "s.not" -> let x = p_sop a.(0) in
+     if int_of_nat x.snv > 12 then None else if expected = "panic" then Some false else
+     let r = p_sop expected in
+     Some (int_of_nat r.snv = int_of_nat x.snv && chk_sop_result x.snv r.scubes (fun m -> not (sem_or x.scubes m)))
+  | "s.to_lut" -> let x = p_sop a.(0) in if int_of_nat x.snv > 16 then None else table_op ~valid:true x.snv expected (sem_or x.scubes)
+  | "x.to_lut" -> let x = p_esop a.(0) in if int_of_nat x.env > 16 then None else table_op ~valid:true x.env expected (sem_xor x.ecubes)
+  | "o.to_lut" -> let x = p_soes a.(0) in if int_of_nat x.onv > 16 then None else table_op ~valid:true x.onv expected (sem_soes x.ocubes)
+  | "s.from_lut" -> let x = p_lut a.(0) in
+     if not (wf_ x && small x) then None else if expected = "panic" then Some false else
+     let r = p_sop expected in Some (int_of_nat r.snv = int_of_nat x.nv && chk_sop_from_lut x.nv x.tbl r.scubes)
+  | "x.from_lut" -> let x = p_lut a.(0) in
+     if not (wf_ x && small x) then None else if expected = "panic" then Some false else
+     let r = p_esop expected in Some (int_of_nat r.env = int_of_nat x.nv && chk_esop_from_lut x.nv x.tbl r.ecubes)
+  | "x.xor" -> let x = p_esop a.(0) and y = p_esop a.(1) in
+     if int_of_nat x.env > 12 then None else
+     if int_of_nat x.env <> int_of_nat y.env then Some (expected = "panic") else if expected = "panic" then Some false else
+     let r = p_esop expected in
+     Some (int_of_nat r.env = int_of_nat x.env && chk_esop_result x.env r.ecubes (fun m -> sem_xor x.ecubes m <> sem_xor y.ecubes m))
+  | "x.not" -> let x = p_esop a.(0) in
+     if int_of_nat x.env > 12 then None else if expected = "panic" then Some false else
+     let r = p_esop expected in
+     Some (int_of_nat r.env = int_of_nat x.env && chk_esop_result x.env r.ecubes (fun m -> not (sem_xor x.ecubes m)))
+  | "s.value" -> let x = p_sop a.(0) in Some (expected = s_bool (sem_or x.scubes (p_n a.(1))))
+  | "x.value" -> let x = p_esop a.(0) in Some (expected = s_bool (sem_xor x.ecubes (p_n a.(1))))
+  | "o.value" -> let x = p_soes a.(0) in Some (expected = s_bool (sem_soes x.ocubes (p_n a.(1))))
+  | "s.is_zero" -> let x = p_sop a.(0) in
+     (* exact only on irredundant covers (results of operators); otherwise soundness: is_zero -> denotes zero *)
+     if int_of_nat x.snv > 12 then None else
+     let zero = List.for_all (fun m -> not (sem_or x.scubes m)) (dom x.snv) in
+     if irredundantb x.snv x.scubes then Some (p_bool expected = zero) else Some ((not (p_bool expected)) || zero)
+  | "s.is_one" -> let x = p_sop a.(0) in
+     if int_of_nat x.snv > 12 then None else
+     Some ((not (p_bool expected)) || List.for_all (fun m -> sem_or x.scubes m) (dom x.snv))
+  | "x.is_zero" -> let x = p_esop a.(0) in
+     if int_of_nat x.env > 12 then None else
+     Some ((not (p_bool expected)) || List.for_all (fun m -> not (sem_xor x.ecubes m)) (dom x.env))
+  | "x.is_one" -> let x = p_esop a.(0) in
+     if int_of_nat x.env > 12 then None else
+     Some ((not (p_bool expected)) || List.for_all (fun m -> sem_xor x.ecubes m) (dom x.env))
   | _ -> None
